@@ -76,7 +76,8 @@ def new_functions(repo) -> List:
     if inv.get("functions") is None:
         return []
     known = set(inv["functions"])
-    return [fi for fi in repo.all_funcs() if fi.parent is None and fi.qual not in known]
+    hoisted = {t for (_s, _n, t) in getattr(repo, "hoisted", [])}
+    return [fi for fi in repo.all_funcs() if fi.parent is None and fi.qual not in known and fi.qual not in hoisted]
 
 
 def new_tables(repo) -> Set[str]:
